@@ -13,3 +13,44 @@ contract(M, 'generate_language', {'L': 'Regexp', 'n': 'Int'}, returns='Set[Word]
          theories=['word', 'regexp'], props=['C02', 'C12'])
 contract(M, 'generate_language', {'L': 'Set[Word]', 'n': 'Int'}, returns='Set[Word]', variant='set', requires=[],
          ensures=['result == L'], theories=['word'], props=['C02', 'C12'])
+
+
+# ---------------------------------------------------------------------------------------------- C12: comparison of two enumerated languages
+_MIN1 = 'all(implies(v in A1 and v not in A2, wlen(w) <= wlen(v)) for v in allwords())'
+_MIN2 = 'all(implies(v in A2 and v not in A1, wlen(w) <= wlen(v)) for v in allwords())'
+contract(M, 'compare_languages', {'A1': 'Set[Word]', 'A2': 'Set[Word]'}, returns='List[Text]', requires=[],
+         ensures=['(len(result) == 0) == (A1 == A2)', 'len(result) <= 1',
+                  # a word of the answer that is not in the reference is reported first, and it is one of minimal length
+                  'implies(not (A1 <= A2), any(w in A1 and w not in A2 and %s and result[0] == msg_should_not(show_word(w)) for w in allwords()))' % _MIN1,
+                  'implies(A1 <= A2 and not (A2 <= A1), any(w in A2 and w not in A1 and %s and result[0] == msg_should(show_word(w)) for w in allwords()))' % _MIN2],
+         types={'A1minusA2': 'List[Word]', 'A2minusA1': 'List[Word]', 'feedback': 'List[Text]', 'word': 'Word'},
+         pre_return_asserts=['implies(len(A1minusA2) > 0, A1minusA2[0] in A1 and A1minusA2[0] not in A2)',
+                             'implies(len(A1minusA2) > 0, all(implies(v in A1 and v not in A2, any(0 <= i and i < len(A1minusA2) and A1minusA2[i] == v for i in ints())) for v in allwords()))',
+                             'implies(len(A1minusA2) > 0, all(implies(v in A1 and v not in A2, wlen(A1minusA2[0]) <= wlen(v)) for v in allwords()))',
+                             'implies(len(A2minusA1) > 0, A2minusA1[0] in A2 and A2minusA1[0] not in A1)',
+                             'implies(len(A2minusA1) > 0, all(implies(v in A2 and v not in A1, any(0 <= i and i < len(A2minusA1) and A2minusA1[i] == v for i in ints())) for v in allwords()))',
+                             'implies(len(A2minusA1) > 0, all(implies(v in A2 and v not in A1, wlen(A2minusA1[0]) <= wlen(v)) for v in allwords()))'],
+         theories=['word'], props=['C12', 'C19'],
+         note='trusted builtin contract B-sorted for sorted(S, key=len); the message texts are uninterpreted functions of the reported word')
+
+# the comparison used by most checkers: enumerate both sides up to the bound, compare.  Typed entry points for the pairs of kinds that the
+# enumerators under contract cover (the other kinds go through the same code with enumerators that are only checked by the bounded stand-ins)
+_IN = {'DFA': lambda L: '(over(%s.Sigma, w) and wlen(w) <= length and dfa_accepts(%s, w))' % (L, L),
+       'TM': lambda L: '(over(%s.Sigma, w) and wlen(w) <= length and tm_accepted(%s, w, 1000))' % (L, L),
+       'Regexp': lambda L: '(wlen(w) <= length and mem(w, L(%s)))' % L,
+       'Set[Word]': lambda L: '(w in %s)' % L}
+_PRE = {'DFA': lambda L: ['dfa_wf(%s)' % L], 'TM': lambda L: ['tm_wf(%s)' % L], 'Regexp': lambda L: [], 'Set[Word]': lambda L: []}
+_TH = {'DFA': ['dfa'], 'TM': ['tm'], 'Regexp': ['regexp', 'wordx'], 'Set[Word]': []}
+for _k1 in ('DFA', 'TM', 'Regexp', 'Set[Word]'):
+    for _k2 in ('DFA', 'TM', 'Regexp', 'Set[Word]'):
+        contract(M, 'check_equal_languages', {'L1': _k1, 'L2': _k2, 'length': 'Int'}, returns='List[Text]', variant='%s-%s' % (_k1.split('[')[0], _k2.split('[')[0]),
+                 defaults={'length': '4'}, requires=_PRE[_k1]('L1') + _PRE[_k2]('L2') + ['length >= 0'],
+                 ensures=['(len(result) == 0) == all(%s == %s for w in allwords())' % (_IN[_k1]('L1'), _IN[_k2]('L2')),
+                          'implies(len(result) > 0, any((%s != %s) and (result[0] == msg_should_not(show_word(w)) or result[0] == msg_should(show_word(w))) for w in allwords()))' % (_IN[_k1]('L1'), _IN[_k2]('L2'))],
+                 theories=['word'] + _TH[_k1] + [t for t in _TH[_k2] if t not in _TH[_k1]], props=['C12', 'C19'],
+                 note='OK (no feedback) exactly when the two enumerations up to the bound are equal; a reported word is a genuine difference')
+
+for _k in ('DFA', 'NFA', 'PDA', 'TM'):
+    contract('gambatools.notebook', 'check_max_states', {'A': _k, 'max_states': 'Int'}, returns='List[Text]', variant=_k, requires=[],
+             ensures=['(len(result) == 0) == (not (0 < max_states and max_states < card(A.Q)))', 'len(result) <= 1'],
+             theories=[], props=['C12', 'C19'], note='no feedback exactly when the state bound is switched off (0) or respected')
